@@ -208,5 +208,43 @@ def e2e(tier, seed):
   return out
 
 
+CLI_VALUES = ["plain", "O'Brien", 'say "hi"', "x' || 'y", "a\\b", "a=b", "--name=z", "${name}", "%s {0}", "semi;colon -- c",
+              "", " lead", "1", "tab\there"]
+
+
+def _cli_job(v):
+  from vlib import cli
+  prog = ('@Engine("sqlite");\n@DefineFlag("name", "dflt");\n@DefineFlag("other", "o");\n'
+          'Q(FlagValue("name"), FlagValue("other"), "lit");\n')
+  rc, out, err = cli.run(prog, 'run_to_csv', 'Q', ['--name=%s' % v])
+  if rc != 0:
+    return v, 'logica.py exited with %d: %s' % (rc, (err or out)[-200:])
+  rows = cli.csv_rows(out)
+  if rows != [(v, 'o', 'lit')]:
+    return v, 'returned %r, expected %r' % (rows, [(v, 'o', 'lit')])
+  return v, None
+
+
+def cli_flags(tier):
+  """Flag values given on the real command line (logica.ReadUserFlags -> BuildFlagValues -> FlagValue -> SQLite)."""
+  vals = [v for v in CLI_VALUES if '${' not in v]      # `${` is reserved program-wide for the flag syntax (DESIGN 9.3)
+  with multiprocessing.get_context('fork').Pool(min(16, len(vals))) as pool:
+    rs = pool.map(_cli_job, vals)
+  out = {'name': 'C10-cli-flags', 'evaluations': len(rs), 'distinct_nontrivial': len(rs), 'violations': [],
+         'samples': [{'argv': "--name=O'Brien", 'returned': "O'Brien"}],
+         'rule': '`logica.py prog.l run_to_csv Q --name=<value>` in a subprocess for %d values (quotes, backslash, '
+                 '=, leading dashes, format placeholders, empty, blanks): the value comes back character for '
+                 'character and the other flag keeps its default' % len(rs)}
+  for v, msg in rs:
+    if msg:
+      out['violations'].append({'key': 'C10-cli-flags/%r' % v,
+                                'replay': {'obligation': 'C10-cli-flags', 'clause': 'flag value is data',
+                                           'solver': 'bounded back end (logica.py in a subprocess)',
+                                           'input': {'flag_value': v}, 'native': {'case': {'flag_value': v}, 'detail': msg,
+                                                                                  'clause': 'cli flag round trip'},
+                                           'prop_replay': {'kind': 'e2e'}}})
+  return out
+
+
 def run(tier, seed):   # noqa: F811
-  return [flag_probe(), e2e(tier, seed)]
+  return [flag_probe(), e2e(tier, seed), cli_flags(tier)]
